@@ -22,6 +22,7 @@ import numpy as np
 
 from .. import common
 from ..common import enc, ask, call
+from .. import corethm
 
 LEVEL = "translation_validation"
 RULE = ("diagrams from one PRNG: 0-9 bars (quick) / 0-40 (thorough), built by class "
@@ -44,10 +45,11 @@ ASSUMPTIONS = [
 ]
 TRUSTED = ["the guarded trace persim.landscapes.exact._VERIF_TRACE is used only to attribute a wrong result to the known repeated-bar shortcut",
            "the compiled driver executable is trusted as compiled by Lean's compiler, not checked by the kernel"]
-# theorems that carry a clause of the property (helpers, concrete instances and definitional restatements excluded); names
-# that are not (or no longer) declared in Props/C03.lean are dropped at run time
-CORE_THEOREMS_WANTED = ["certify_sound", "certifyTol_sound", "hom_deg_selects", "trailing_inf_removed", "sweepNoShortcut_correct",
-                        "sweep_correct_of_not_fired", "shortcut_counterexample", "exact_never_fuel"]
+# theorems that carry a clause of the property (helper lemmas, concrete instances such as the shortcut counterexample, and
+# model glue about rejected / out-of-domain inputs are excluded)
+CORE_THEOREMS = ["certifyTol_sound", "certify_sound", "certify_beyond_last", "certify_ordered_vanishing", "hom_deg_selects",
+                 "hom_deg_ignores_others", "trailing_inf_removed", "trailing_inf_same_landscape", "exact_never_fuel",
+                 "sweepNoShortcut_correct", "sweep_correct_of_not_fired", "exact_correct_of_not_fired"]
 # integer dtypes: (smallest, largest representable value, scale factors k applied to the lattice coordinates 0..6 — the larger
 # ones make b+d exceed the dtype, where the midpoint wrapped around before /repo fix 56d4899)
 INT_DTYPES = {"int64": (-2 ** 63, 2 ** 63 - 1, [1, 10, 2 ** 40, 2 ** 60]), "int32": (-2 ** 31, 2 ** 31 - 1, [1, 10, 2 ** 20, 2 ** 28]),
@@ -331,6 +333,7 @@ def confirm(bars, cps, wit, tol):
 def run(ctx):
     r = ctx.rng
     kf = [t for kind, t in common.known_findings("C03") if kind == "known"]
+    corethm.record(ctx, CORE_THEOREMS, ["PersimVerif/Props/C03.lean"])
     ctx.extra["source_digest"] = common.source_digest("persim/landscapes/exact.py", ["__init__", "compute_landscape"])
 
     # corpus first (accepted regressions and the documented examples)
@@ -595,19 +598,24 @@ def replay(ctx, rep):
 
 
 MANIFEST = {
-    "text": "Translation validation by a Lean-verified checker, plus a proof about the model of the algorithm. (1) `certify_sound` "
+    "text": "21 Lean theorems, of which 12 core (the rest: helper variants, the shortcut counterexample and other concrete "
+            "instances, model glue for rejected inputs). "
+            "Translation validation by a Lean-verified checker, plus a proof about the model of the algorithm. (1) `certify_sound` "
             "(Lean 4, any linear ordered field): whenever the executable checker accepts a diagram and a list of critical pairs, the "
             "piecewise-linear functions equal the k-th-largest-tent landscape at every real t and every depth k (with ordered abscissae, "
             "zero ends, zero beyond the last depth). On every run the real PersLandscapeExact is called on generated diagrams (all "
-            "interaction classes, several diagrams + hom_deg, trailing infinite bar) and its OWN output is sent to the compiled checker, "
+            "interaction classes, several diagrams + hom_deg, trailing infinite bar, float and integer dtypes incl. int8/uint8/int16/"
+            "int32/int64 where b+d exceeds the dtype) and its OWN output is sent to the compiled checker, "
             "so for each explored diagram the for-all-t-and-k conclusion is a theorem instance; diagrams are sampled. (2) "
             "`sweepNoShortcut_correct` / `sweep_correct_of_not_fired`: for EVERY diagram with bars of positive length the line-by-line "
             "Lean model of compute_landscape terminates and, whenever its repeated-bar shortcut does not fire, returns well-formed "
             "critical pairs equal to the landscape for all t and k; the model is compared with the real code on every generated diagram "
             "(exactly on dyadic input). The known repeated-bar-shortcut defect is a theorem about that model (`shortcut_counterexample`) "
             "and is reported as KNOWN-FINDING; wrong results are attributed to it only when the guarded trace says the shortcut fired.",
-    "note": "Trusted: Lean kernel + Mathlib (axioms propext/Classical.choice/Quot.sound), the harness/protocol, np.interp as linear "
-            "interpolation. Exact on lattice/half/dyadic input; on decimal input the code's rounded midpoints are certified within 1e-9*scale "
+    "note": "Trusted: Lean kernel + Mathlib (axioms propext/Classical.choice/Quot.sound), the harness/protocol, the compiled driver "
+            "executable (compiled by Lean's compiler, not checked by the kernel), np.interp as linear interpolation. A diagram with an "
+            "infinite death in a row that is not the last is outside the property ('finite diagrams'): code (non-finite critical pairs) "
+            "and model (NonFinite) are only checked to agree on that. Exact on lattice/half/dyadic input; on decimal input the code's rounded midpoints are certified within 1e-9*scale "
             "(`certifyTol_sound`). The level stays translation validation because the real code is tied to the model only by the sampled "
             "correspondence and because the property as stated is false on the unchanged tree (known finding).",
     "technique": "Lean-verified certificate checker applied to the real code's output + proved model of the sweep + differential correspondence",
